@@ -701,6 +701,187 @@ def oracle_subvectors(c, problems, stats):
             cmp(f"iecdf[{im}]", fi, run1(M.iecdf, y, ps[idx], im), idx, how, ps[idx])
 
 
+# ------------------------------------------------------------------ evaluation points / probabilities given as n-d arrays
+# Quantifier covered: "for all ... ALL EVALUATION POINTS AND PROBABILITIES".  The helpers take the points as an np.ndarray and act on every
+# point separately; nothing in the statement ties the laws to a particular number of dimensions, shape or memory layout of that array
+# (a time x location block, time x lat x lon, a column / row vector, Fortran order, a transposed / strided / reversed view).  Every other
+# generator of this check hands the points over as a 1-d C-contiguous vector, so code that treats a boolean mask as a list of first-axis
+# indices, flattens in memory order, or assumes `.shape[0] == .size` was never exercised.  The laws are judged directly on the n-d result,
+# point by point (index i of the result belongs to index i of the points): ecdf in [0,1] / non-decreasing in the point / 1 at the sample maximum;
+# iecdf non-decreasing in p / within [min, max] / min and max at p = 0, 1; quantile maps monotone / into the range of the target / value +
+# constant shift outside the source range / inside the source range the plain map; and the image of a point does not depend on where in
+# which array it sits (the same as on the flattened points: Props.C16.qmap_elementwise, qmapExtrap_eq_map, ecdf_elementwise, iecdf_elementwise).
+# Guards: at least one dimension (a 0-d array is a scalar, the extrapolating variant assigns by mask); with more than two dimensions only the
+# iecdf method 'inverted_cdf' (ibicus' own IECDF) — numpy's np.quantile refuses q with more than 2 dimensions ("q must be a scalar or 1d"), which
+# is numpy's restriction and not a law of the property.
+GRID_LAYOUTS = ["C", "F", "transposed_view", "strided_view", "reversed_view"]
+
+
+def grid_layout(a, layout):
+    """the same logical array (same shape, same value at every index) in another memory layout"""
+    a = np.array(a, order="C")
+    if layout == "F":
+        return np.asfortranarray(a)
+    if layout == "transposed_view":
+        return np.ascontiguousarray(a.T).T
+    if layout == "strided_view":
+        buf = np.zeros(a.shape[:-1] + (2 * a.shape[-1],), dtype=a.dtype)
+        buf[..., ::2] = a
+        return buf[..., ::2]
+    if layout == "reversed_view":
+        return np.ascontiguousarray(a[::-1])[::-1]
+    return a
+
+
+def gen_grids(c):
+    """the case's evaluation points / probabilities laid out as n-d arrays; own PRNG stream (C.seed(), case number)"""
+    rg = random.Random(C.seed() * 104729 + 161616 + 7919 * int(c["k"]))
+    vals, ps, x = c["vals"], c["ps"], c["x"]
+
+    def fill(src, n):  # every element of src at least once, the rest drawn from src, shuffled
+        idx = list(range(src.size)) + [rg.randrange(src.size) for _ in range(n - src.size)]
+        rg.shuffle(idx)
+        return src[idx]
+
+    def shape2(size):
+        r = rg.choice([2, 3, 4, 5])
+        return (r, -(-size // r))
+
+    def shape3(size):
+        b = rg.choice([2, 3])
+        return (2, b, -(-size // (2 * b)))
+
+    grids = []
+    for kind, src in (("values", vals), ("probabilities", ps)):
+        for shp in (shape2(src.size), shape3(src.size), (src.size, 1) if c["k"] % 2 else (1, src.size)):
+            grids.append((kind, fill(src, int(np.prod(shp))).reshape(shp), rg.choice(GRID_LAYOUTS) if min(shp) > 1 else "C"))
+    # a block of points inside the source range with ONE point outside it (below or above): the usual situation of a future period
+    inside = vals[(vals >= x.min()) & (vals <= x.max())]
+    outside = vals[(vals > x.max())] if rg.random() < 0.5 else vals[(vals < x.min())]
+    if inside.size and outside.size:
+        shp = (rg.choice([2, 3, 4]), rg.choice([2, 3, 4]))
+        g = np.array([inside[rg.randrange(inside.size)] for _ in range(shp[0] * shp[1])], dtype=vals.dtype)
+        g[rg.randrange(g.size)] = outside[rg.randrange(outside.size)]
+        grids.append(("values", g.reshape(shp), rg.choice(GRID_LAYOUTS)))
+    return grids
+
+
+def judge_grid(c, kind, G, layout, pairs, problems, stats):
+    """the property's laws on the n-d array G of evaluation points (kind 'values') or probabilities, handed over in the given layout"""
+    from ibicus.utils import _math_utils as M
+
+    x, y = c["x"], c["y"]
+    nx = x.size
+    xmin, xmax, ymin, ymax = x.min(), x.max(), y.min(), y.max()
+    G = np.array(G, order="C")
+    g = G.ravel().copy()  # index i of the flattened result belongs to point g[i]
+    order = np.argsort(g, kind="stable")
+    cj = {**case_json(c), "grid": G.tolist(), "grid_kind": kind, "grid_layout": layout, "grid_shape": list(G.shape)}
+    where = f"on a {'x'.join(str(s) for s in G.shape)} array of {'evaluation points' if kind == 'values' else 'probabilities'} (layout {layout})"
+    tolq = 1e-9 * (1 + float(np.abs(y).max()) + float(np.abs(c["vals"]).max()))
+    eps = 1e-12
+
+    def run1(f, *a):
+        try:
+            with warnings.catch_warnings(), np.errstate(all="ignore"):
+                warnings.simplefilter("ignore")
+                return np.asarray(f(*a))
+        except Exception as ex:  # noqa: BLE001
+            return ex
+
+    def evaluate(name, f, args_before, args_after, sig):
+        """-> (result on the grid flattened in index order, result on the flattened points) or None"""
+        got = run1(f, *args_before, grid_layout(G, layout), *args_after)
+        flat = run1(f, *args_before, g.copy(), *args_after)
+        stats["grid_checks"] += 1
+        if isinstance(flat, Exception):
+            stats["grid_skipped_flat_call_raises"] += 1
+            return None
+        if isinstance(got, Exception):
+            problems.append((f"{name} {where} raises {type(got).__name__}: {str(got)[:200]}; on the same points as a 1-d vector it returns values",
+                             {**cj, "function": name, **sig}, {**sig, "law": "nd_exception", "function": name}))
+            return None
+        if got.shape != G.shape:
+            problems.append((f"{name} {where} returns an array of shape {list(got.shape)}: not one value per point", {**cj, "function": name, **sig},
+                             {**sig, "law": "nd_shape", "function": name}))
+            return None
+        r, fl = got.astype(float).ravel(), flat.astype(float).ravel()
+        if not np.array_equal(r, fl, equal_nan=True):
+            j = int(np.argmax(r != fl))
+            problems.append((f"{name} {where}: the point {g[j]!r} at index {list(map(int, np.unravel_index(j, G.shape)))} gets {r[j]!r}; the same point in the flattened vector gets {fl[j]!r}",
+                             {**cj, "function": name, **sig}, {**sig, "law": "nd_elementwise", "function": name}))
+        return r
+
+    def bad(name, desc, law, sig):
+        problems.append((f"{name} {where}: {desc}", {**cj, "function": name, **sig}, {**sig, "law": law, "function": name}))
+
+    if kind == "values":
+        above, below = g > xmax, g < xmin
+        inside = ~above & ~below
+        for em in EM:
+            sig = {"method": em}
+            e = evaluate("ecdf", M.ecdf, (x,), (em,), sig)
+            if e is None:
+                continue
+            if not (np.all(e >= -eps) and np.all(e <= 1 + eps)):
+                bad("ecdf", f"values outside [0,1]: {e[(e < -eps) | (e > 1 + eps)][:3].tolist()}", "nd_range", sig)
+            if np.any(np.diff(e[order]) < -eps):
+                bad("ecdf", "decreasing in the evaluation point", "nd_monotone", sig)
+            if nx >= 2 and not (em == "kernel_density" and xmin == xmax) and np.any(e[g == xmax] != 1.0):
+                bad("ecdf", f"{e[g == xmax][:3].tolist()} at the sample maximum, not 1", "nd_at_max", sig)
+        for em, im in pairs:
+            if G.ndim > 2 and im != "inverted_cdf":
+                stats["grid_skipped_np_quantile_q_ndim"] += 1
+                continue
+            sig = {"method": em, "iecdf": im}
+            q = evaluate("quantile_map_non_parametically", M.quantile_map_non_parametically, (x, y), (em, im), sig)
+            if q is not None:
+                if np.any(q < ymin) or np.any(q > ymax):
+                    j = int(np.argmax((q < ymin) | (q > ymax)))
+                    bad("quantile_map_non_parametically", f"the point {g[j]!r} is mapped to {q[j]!r}, outside [min y, max y] = [{float(ymin)!r}, {float(ymax)!r}]", "nd_range", sig)
+                if np.any(np.diff(q[order]) < 0):
+                    bad("quantile_map_non_parametically", "not monotone in the evaluation point", "nd_monotone", sig)
+            name = "quantile_map_non_parametically_with_constant_extrapolation"
+            qx = evaluate(name, M.quantile_map_non_parametically_with_constant_extrapolation, (x, y), (em, im), sig)
+            if qx is not None:
+                if np.any(qx[inside] < ymin) or np.any(qx[inside] > ymax):
+                    j = int(np.argmax(inside & ((qx < ymin) | (qx > ymax))))
+                    bad(name, f"the point {g[j]!r} inside the source range [{float(xmin)!r}, {float(xmax)!r}] is mapped to {qx[j]!r}, outside [min y, max y] = [{float(ymin)!r}, {float(ymax)!r}]",
+                        "nd_range", sig)
+                if np.any(qx[above] != g[above] + (ymax - xmax)) or np.any(qx[below] != g[below] + (ymin - xmin)):
+                    bad(name, "outside [min x, max x] the result is not value + (min y - min x) / (max y - max x)", "nd_extrapolation_shift", sig)
+                if q is not None and np.any(qx[inside] != q[inside]):
+                    bad(name, "inside the source range the result differs from the plain quantile map", "nd_extrapolation_inside", sig)
+                if np.any(np.diff(qx[order]) < -tolq):
+                    j = int(np.argmax(np.diff(qx[order]) < -tolq))
+                    bad(name, f"not monotone in the evaluation point: {g[order][j]!r} -> {qx[order][j]!r}, {g[order][j + 1]!r} -> {qx[order][j + 1]!r}", "nd_monotone", sig)
+    else:
+        for im in IM:
+            if G.ndim > 2 and im != "inverted_cdf":
+                stats["grid_skipped_np_quantile_q_ndim"] += 1
+                continue
+            sig = {"method": im}
+            q = evaluate("iecdf", lambda p, yy, m: M.iecdf(yy, p, m), (), (y, im), sig)
+            if q is None:
+                continue
+            if np.any(np.diff(q[order]) < 0):
+                bad("iecdf", "decreases in p", "nd_monotone", sig)
+            if np.any(q < ymin) or np.any(q > ymax):
+                bad("iecdf", f"leaves [min, max] = [{float(ymin)!r}, {float(ymax)!r}]: {q[(q < ymin) | (q > ymax)][:3].tolist()}", "nd_range", sig)
+            if np.any(q[g == 0.0] != ymin) or np.any(q[g == 1.0] != ymax):
+                bad("iecdf", f"p = 0 / 1 give {q[g == 0.0][:2].tolist()} / {q[g == 1.0][:2].tolist()}, sample min / max {float(ymin)!r} / {float(ymax)!r}", "nd_endpoints", sig)
+    stats["grid_" + kind] += 1
+    stats[f"grid_{G.ndim}d"] += 1
+    stats["grid_layout_" + layout] += 1
+
+
+def oracle_grids(c, problems, stats):
+    k = int(c["k"])
+    pairs = [(EM[k % 3], IM[k % 9]), ("step_function", "inverted_cdf"), (EM[(k + 1) % 3], "linear"), (EM[(k + 2) % 3], "inverted_cdf")]
+    for kind, G, layout in gen_grids(c):
+        judge_grid(c, kind, G, layout, pairs, problems, stats)
+
+
 def oracle_endpoints(n, rng, problems, stats):
     """the end points, exactly, for a tie-free sample of size n: ecdf == 1.0 at and above the maximum, == 0.0 below the
     minimum (float evaluation of k/n must not miss them), iecdf(0/1) == min/max, quantile map of max x == max y for all
@@ -830,7 +1011,7 @@ def run(tier, res, force_search=False):
     res.rule = ("cases = (x, y, y2, evaluation points, probabilities) from one PRNG (VERIF_SEED): sizes 1..12, values k/64 with ties / tie-free / constant, "
                 "scaled exactly by 1, 2^40 or 2^-40; source sample and values as float64 (60%), float32 (20%) or integer-valued int64 (20%), target always float64; plus (own PRNG stream) "
                 "RELATED source / target / evaluation vectors, every relation scheduled: target = the same values, the same array object, a permutation, a reversed view, a shifted / scaled / negated / "
-                "nearly equal copy, a sub-sample, a superset of the source, both samples sorted, evaluation vector = the target object, with evaluation points beyond both samples' ranges; plus every sample size 1..400 and 1000, 4096, 10007, 20001 (tie-free) for the exact end-point laws; every case runs all 3 ecdf x 9 iecdf methods; non-trivial = sample has >= 2 distinct values; "
+                "nearly equal copy, a sub-sample, a superset of the source, both samples sorted, evaluation vector = the target object, with evaluation points beyond both samples' ranges; plus (own PRNG stream per case) the case's evaluation points / probabilities handed over as n-d arrays: 2-d, 3-d, column / row vector, a block with one point outside the source range, in C / Fortran order or as a transposed / strided / reversed view; plus every sample size 1..400 and 1000, 4096, 10007, 20001 (tie-free) for the exact end-point laws; every case runs all 3 ecdf x 9 iecdf methods; non-trivial = sample has >= 2 distinct values; "
                 "distinct = distinct (size x, size y, kind, scale, ties in x, ties in y) classes")
     res.trusted = C.BASE_TRUSTED + [
         "tier A for the toolkit (translator/extract_stats.py -> Gen/Stats.lean, Lemmas/GenStats.lean): the bodies of IECDF, iecdf, ecdf, the three quantile maps, "
@@ -851,6 +1032,9 @@ def run(tier, res, force_search=False):
                        "inputs-unchanged (byte comparison), shared-memory arguments and stale-state checks are decided by the oracle on the real code only",
                        "result dtype / precision of mixed-dtype arguments (float32, int64 source with a float64 target) and the float evaluation of k/n at the end points for each n are decided by the oracle on the real code only: "
                        "the model is exact rational arithmetic, where n/n = 1 for every n (Props.C16.ecdf_step_at_max, ecdf_below_min, iecdf_zero/one, qmap_at_max, qmapHist_at_max)",
+                       "evaluation points / probabilities as n-d arrays (number of dimensions, shape, memory layout): the model's evaluation vector is a List (Props.C16.qmap_elementwise, qmapExtrap_eq_map, ecdf_elementwise, "
+                       "iecdf_elementwise say each point is mapped on its own); that the real helpers do the same for every array shape / layout is decided by the oracle on the real code only; at least one dimension, and with more than "
+                       "two dimensions only iecdf method 'inverted_cdf' (np.quantile refuses q with more than 2 dimensions)",
                        "samples are finite floats; probabilities lie in [0,1]", "the target sample y is float64 (source / values may be float32 or int64)", "sample size >= 2 for the distribution-function laws (size 1 is stated separately: Props.C16.ecdf_size_one_*, iecdf_size_one)",
                        "tie-free source for the equal-size reproduction law; tie-free reference for the exact comparison of sort_array_like_another_one"]
 
@@ -878,6 +1062,7 @@ def run(tier, res, force_search=False):
         oracle_purity(c, problems, stats)  # first: works on copies, before any helper has seen the case's own arrays
         oracle_inplace_sequences(c, problems, stats)
         oracle_subvectors(c, problems, stats)
+        oracle_grids(c, problems, stats)
         snap = {a: c[a].tobytes() for a in ("x", "y", "y2", "vals", "ps")}
         correspondence(c, corr)
         seq_correspondence(c, corr)
@@ -905,6 +1090,8 @@ def run(tier, res, force_search=False):
             oracle_inplace_sequences(c, problems, stats)
         if k % 2 == 0:
             oracle_subvectors(c, problems, stats)
+        else:
+            oracle_grids(c, problems, stats)
         oracle(c, problems, stats)
     # every sample size 1..400 (the float evaluation of k/n at the end points depends on n) and a few long ones
     sizes = list(range(1, 401)) + [1000, 4096, 10007, 20001] + ([36500, 65536] if tier == "thorough" else [])
@@ -955,6 +1142,14 @@ def replay(data):
         if "vals_is_y" in c["aliases"]:
             c["vals"] = c["y"]
     problems = []
+    if "grid" in fi:  # evaluation points / probabilities as an n-d array: the stored array in the stored layout, all 27 method pairs
+        G = np.array(fi["grid"], dtype=dt if fi.get("grid_kind") == "values" else float)
+        judge_grid(c, fi.get("grid_kind", "values"), G, fi.get("grid_layout", "C"), [(em, im) for em in EM for im in IM], problems, collections.Counter())
+        want = data.get("signature", {})
+        hits = [p for p in problems if all(p[2].get(k) == v for k, v in want.items())]
+        for desc, _, sig in hits:
+            print("REPRODUCED:", desc[:300], sig)
+        return 1 if hits else 0
     oracle(c, problems, collections.Counter())
     oracle_purity(c, problems, collections.Counter())
     oracle_inplace_sequences(c, problems, collections.Counter())
